@@ -10,9 +10,10 @@ Section Cover.
   Variable mredir : str -> str -> option verdict.
   Variable cdres : str -> str -> str.
   Variable injrisk : ctx -> list str -> bool.
-  Notation ev := (ev simple astr mredir cdres injrisk).
-  Notation walk := (walk simple astr mredir cdres injrisk).
-  Notation build := (build simple astr mredir cdres injrisk).
+  Variable rulematch : ctx -> list str -> bool.
+  Notation ev := (ev simple astr mredir cdres injrisk rulematch).
+  Notation walk := (walk simple astr mredir cdres injrisk rulematch).
+  Notation build := (build simple astr mredir cdres injrisk rulematch).
 
   Definition field (r : role) (x : res) (c : ctx) : list verdict :=
     match r with
@@ -41,7 +42,7 @@ Section Cover.
   Lemma ok_combine l : combine l = Allow <-> ok l.
   Proof. apply combine_allow. Qed.
 
-  Lemma need_ok c o : need simple astr mredir cdres injrisk c o = Allow -> forall x, o = Some x -> walk c x = Allow.
+  Lemma need_ok c o : need simple astr mredir cdres injrisk rulematch c o = Allow -> forall x, o = Some x -> walk c x = Allow.
   Proof. intros H x ->. exact H. Qed.
 
   Lemma firstc_child (l : string) t x : In x (firstc l t) -> child l t = Some x.
@@ -84,7 +85,7 @@ Section Cover.
     forall r' d, In (r', d) (sub RNode t) -> exists c', same_mode c c' /\ ok (field r' (ev d) c').
   Proof.
     destruct t as [k ss fs ks]. intros H r' d Hin. unfold sub, is_kind in Hin. cbn [kind_of] in Hin.
-    assert (Hred : forall (x : unit), ok (redirs_of simple astr mredir cdres injrisk c (T k ss fs ks)) ->
+    assert (Hred : forall (x : unit), ok (redirs_of simple astr mredir cdres injrisk rulematch c (T k ss fs ks)) ->
                              In (r', d) (tag RRedir (children "redirects" (T k ss fs ks))) ->
                              exists c', same_mode c c' /\ ok (field r' (ev d) c')).
     { intros _ Hr Hi. apply in_tag in Hi as [-> Hd]. exists c. split; [reflexivity|].
